@@ -63,7 +63,11 @@ var (
 )
 
 // S is one synthesiser (its importer caches type-checked standard packages; not safe for concurrent use).
-type S struct{ imp types.Importer }
+type S struct {
+	imp types.Importer
+	// LastPanic: the last Run recovered a panic of a checker; such an input counts as found (Fires)
+	LastPanic bool
+}
 
 // New returns a synthesiser.
 func New() *S { return &S{imp: importer.ForCompiler(token.NewFileSet(), "source", nil)} }
@@ -424,6 +428,7 @@ func isIdent(s string) bool { return regexp.MustCompile(`^[a-z]\w*$`).MatchStrin
 
 // Run runs checkers over one synthesised file at a configured Go version ("" = unset).
 func (y *S) Run(src string, goVersion string, mk func(ctx *linter.Context) ([]*linter.Checker, error)) ([]linter.Warning, *token.FileSet, error) {
+	y.LastPanic = false
 	fset, f, info, pkg, errs := y.check(src)
 	if len(errs) > 0 {
 		return nil, nil, fmt.Errorf("%s", errs[0].Msg)
@@ -441,7 +446,11 @@ func (y *S) Run(src string, goVersion string, mk func(ctx *linter.Context) ([]*l
 	var out []linter.Warning
 	for _, c := range cs {
 		func() {
-			defer func() { recover() }()
+			defer func() {
+				if recover() != nil {
+					y.LastPanic = true
+				}
+			}()
 			out = append(out, c.Check(f)...)
 		}()
 	}
